@@ -53,6 +53,10 @@ func init() {
 		"cli:prune:overlapping-indexes", "cli:prune:disjoint-indexes", "cli:prune:caidx+caibx", "cli:prune:unreferenced-present",
 		"cli:prune:referenced-absent", "cli:prune:exit0", "cli:prune:stdin-index", "cli:verify:repair", "cli:verify:no-repair", "cli:verify:reported>0",
 		"nontrivial:cli:prune", "nontrivial:cli:verify",
+		"cli:store-path:canonical", "cli:store-path:non-canonical", "cli:store-path:non-canonical:prune", "cli:store-path:non-canonical:verify",
+		"cli:store-path:trailing-slash", "cli:store-path:double-slash", "cli:store-path:dot", "cli:store-path:dotdot",
+		"cli:store-path:relative", "cli:store-path:relative-dot", "cli:store-path:relative-trailing-slash",
+		"cli:store-path:symlink", "cli:store-path:symlink-trailing-slash", "cli:store-path:symlink-in-path",
 		"cli:prune:unlink-fails", "cli:prune:unlink-fails:delivered", "cli:verify-repair:unlink-fails", "cli:verify-repair:unlink-fails:delivered")
 	spec.Rule += "; with $VERIF_DESYNC_BIN: additionally `desync prune -y -s <local store> <1..4 index files>` (caibx/caidx of different lengths in generated order, overlapping or disjoint, " +
 		"optionally one on stdin) and `desync verify -s <store> -n N [-r]` as child processes, uncompressed mode via --config or $HOME config, same clauses plus exit status 0; " +
@@ -169,8 +173,9 @@ type cliResult struct {
 }
 
 // runCLI writes the index/config files next to (not inside) the store and runs the command.
-func runCLI(c Case, storeDir string, l *layout) cliResult {
+func runCLI(c Case, d *dirBackend, l *layout) cliResult {
 	cl := c.CLI
+	storeArg, cwd := d.spelled, d.cwd
 	work := hx.Scratch("c16cli")
 	defer os.RemoveAll(work)
 	home := filepath.Join(work, "home")
@@ -179,7 +184,7 @@ func runCLI(c Case, storeDir string, l *layout) cliResult {
 	}
 	var args []string
 	if c.Uncompressed {
-		cfg := map[string]any{"store-options": map[string]any{storeDir: map[string]any{"uncompressed": true}}}
+		cfg := map[string]any{"store-options": map[string]any{storeArg: map[string]any{"uncompressed": true}}}
 		b, _ := json.Marshal(cfg)
 		p := filepath.Join(work, "desync-config.json")
 		if cl.Cfg == "home" {
@@ -201,7 +206,7 @@ func runCLI(c Case, storeDir string, l *layout) cliResult {
 	var stdin []byte
 	switch c.Op {
 	case "prune":
-		args = append(args, "prune", flag("-s", "--store"), storeDir, flag("-y", "--yes"))
+		args = append(args, "prune", flag("-s", "--store"), storeArg, flag("-y", "--yes"))
 		for i, ix := range cl.Indexes {
 			idx := indexOf(ix, l.ids, l.datas)
 			var buf bytes.Buffer
@@ -224,7 +229,7 @@ func runCLI(c Case, storeDir string, l *layout) cliResult {
 			args = append(args, p)
 		}
 	case "verify":
-		args = append(args, "verify", flag("-s", "--store"), storeDir, flag("-n", "--concurrency"), fmt.Sprint(c.N))
+		args = append(args, "verify", flag("-s", "--store"), storeArg, flag("-n", "--concurrency"), fmt.Sprint(c.N))
 		if c.Repair {
 			args = append(args, flag("-r", "--repair"))
 		}
@@ -234,6 +239,9 @@ func runCLI(c Case, storeDir string, l *layout) cliResult {
 	cmd := exec.CommandContext(ctx, cliBin(), args...)
 	cmd.Env = []string{"HOME=" + home, "TMPDIR=" + work, "PATH=/usr/bin:/bin"}
 	cmd.Dir = work
+	if cwd != "" {
+		cmd.Dir = cwd
+	}
 	cmd.Stdin = bytes.NewReader(stdin)
 	var so, se bytes.Buffer
 	cmd.Stdout, cmd.Stderr = &so, &se
